@@ -1005,16 +1005,45 @@ func c18Alloc(c *rep.Ctx) {
 		}
 		var perCaller []pc
 		var paramEdges = an.Set{}
+		// cleanFrom: the guarded local is not written on any path from gate vertex
+		// `from` to the allocation (the value tested / assigned at the gate is the
+		// value that sizes the allocation)
+		cleanFrom := func(from *an.Node, obj types.Object) bool {
+			for m := range g.Between(from, target) {
+				if m.Kind == an.KStmt && m != target && m != from && an.Assigns(info, m.Ast, obj) {
+					return false
+				}
+			}
+			return true
+		}
+		clampSeen := map[*an.Node]bool{}
 		for _, b := range bounds {
-			// the guarded variable must not be reassigned between the guard and the allocation
-			if b.el.fld == nil {
-				clean := true
-				for m := range g.Between(b.edge.Cond, target) {
-					if m.Kind == an.KStmt && m != target && an.Assigns(info, m.Ast, b.el.obj) {
-						clean = false
+			if b.el.fld == nil && b.el.obj != nil {
+				// clamp idiom `if x > L { x = L }` (any spelling of the comparison): behind
+				// the bounding comparison the guarded local is overwritten with a value
+				// that does not come from the wire.  Such an assignment is a gate of its
+				// own (same idiom as rule loop-bound, c18GapLoopBound); the value assigned
+				// is judged like a limit.
+				for _, m := range g.Nodes {
+					as, isAs := m.Ast.(*ast.AssignStmt)
+					if m.Kind != an.KStmt || !isAs || as.Tok != token.ASSIGN || len(as.Lhs) != 1 || len(as.Rhs) != 1 || clampSeen[m] {
+						continue
+					}
+					if an.ObjOf(info, as.Lhs[0]) != b.el.obj || a.dep(info, as.Rhs[0]).wire || !g.Dominated(m, an.SetOf(b.edge.Cond)) || !cleanFrom(m, b.el.obj) {
+						continue
+					}
+					clampSeen[m] = true
+					all[m] = true
+					if q := a.limitQuality(s.at, as.Rhs[0], 0, nil); q == "" {
+						good[m] = true
+					} else {
+						badWhy = q
 					}
 				}
-				if !clean {
+				// the guarded variable must not be reassigned between the bounded outcome
+				// of the guard and the allocation (a write on the other outcome does not
+				// touch the paths this edge vouches for)
+				if !cleanFrom(b.edge, b.el.obj) {
 					continue
 				}
 			}
